@@ -199,11 +199,28 @@ pub fn check(c: &Case) -> Verdict {
     let out: Out = match c.variant % 8 {
         0 => {
             let mut r = Reader::from_reader(&data[..]);
-            seek_and_skip!(r, r.read_event(), (r.read_to_end(qn).map_err(|e| format!("{:?}", e)), None), r.read_to_end(QName(b"zq")).map(|_| ()))
+            // (for every other document the call is made on a clone of the reader taken at that moment: a
+            // copy of a reader is a reader in the same state)
+            seek_and_skip!(
+                r,
+                r.read_event(),
+                {
+                    if data.len() % 2 == 0 {
+                        let copy = r.clone();
+                        r = copy;
+                    }
+                    (r.read_to_end(qn).map_err(|e| format!("{:?}", e)), None)
+                },
+                r.read_to_end(QName(b"zq")).map(|_| ())
+            )
         }
         1 => {
             let mut r = Reader::from_reader(&data[..]);
             seek_and_skip!(r, r.read_event(), {
+                if data.len() % 2 == 1 {
+                    let copy = r.clone();
+                    r = copy;
+                }
                 let before = r.buffer_position();
                 match r.read_text(qn) {
                     Ok(t) => (Ok(before..before + t.len() as u64), Some(t.into_owned())),
